@@ -91,6 +91,8 @@ Layouts == [
                   Pool("p3", <<"v1">>, FALSE, TRUE, NULL) >>,
   PinNoAuto |-> << Pool("p1", <<"b0">>, FALSE, TRUE, NULL),
                    Pool("p2", <<"b3">>, FALSE, FALSE, Pin(1, {"ns1"}, {})) >>,
+  PinNoAuto2 |-> << Pool("p1", <<"b0">>, FALSE, TRUE, Pin(5, {"ns1"}, {})),
+                    Pool("p2", <<"b3">>, FALSE, FALSE, Pin(1, {"ns1"}, {})) >>,
   PinMoveA |-> << Pool("p1", <<"b01">>, FALSE, TRUE, Pin(1, {"ns1"}, {})),
                   Pool("p2", <<"b3">>, FALSE, TRUE, NULL) >>,
   PinMoveB |-> << Pool("p1", <<"b01">>, FALSE, TRUE, Pin(1, {"ns2"}, {})),
